@@ -34,6 +34,39 @@ type GTy struct {
 type GField struct {
 	Name string // the schema-level name (field name / member type name); the Go field is strings.Title(Name)
 	T    *GTy
+	Slot string // FieldSlot of a struct field ("" for union members and before AnnotateGTy): not part of the token form
+}
+
+// AnnotateGTy records, for every struct field of g bound to t, how it carries optional / nullable (GField.Slot); the printers
+// need it to tell a nil []byte that means absent / null from one that is merely empty.
+func AnnotateGTy(g *GTy, t *SType) {
+	if g.K == "ptr" {
+		g = g.Elem
+	}
+	switch t.K {
+	case "list", "map":
+		if g.Elem != nil {
+			AnnotateGTy(g.Elem, t.Elem)
+		}
+	case "struct":
+		for i := range g.Fields {
+			if i >= len(t.Fields) {
+				break
+			}
+			f, fg := t.Fields[i], g.Fields[i].T
+			g.Fields[i].Slot = FieldSlot(fg, f.Opt, f.Nullable)
+			if g.Fields[i].Slot == "optptr" {
+				fg = fg.Elem
+			}
+			AnnotateGTy(fg, f.T)
+		}
+	case "union":
+		for i := range g.Fields {
+			if i < len(t.Members) && g.Fields[i].T.K == "ptr" {
+				AnnotateGTy(g.Fields[i].T.Elem, t.Members[i].T)
+			}
+		}
+	}
 }
 
 var goIntKinds = map[string]reflect.Type{
@@ -183,17 +216,37 @@ func (g *GTy) Reflect() reflect.Type {
 	panic("GTy.Reflect: " + g.K)
 }
 
-// GTyOf reads the Go type rt bound to schema type t (in a slot that is nullable iff nul) back into the model's form.
-func GTyOf(rt reflect.Type, t *SType, nul bool) (*GTy, error) {
-	if nul {
-		if rt.Kind() != reflect.Ptr {
-			return nil, fmt.Errorf("nullable slot of %s is not a pointer: %s", t.K, rt)
-		}
-		e, err := GTyOf(rt.Elem(), t, false)
-		if err != nil {
-			return nil, err
-		}
-		return &GTy{K: "ptr", Elem: e}, nil
+// IsBareNilable: a Go type that is nilable without a pointer (bindnode's ptrOrNilable: slice, interface) - an optional or
+// nullable struct field may be bound to it directly, nil standing for absent / null.
+func (g *GTy) IsBareNilable() bool {
+	switch g.K {
+	case "slice", "bytes", "link:iface", "node":
+		return true
+	}
+	return false
+}
+
+// FieldSlot classifies how a struct field of Go type g carries optional / nullable (the model's GoBind.fslot):
+// "value" (not optional: a value slot, nullable iff the field is), "optptr" (optional behind a pointer), "optbare" (optional,
+// bound to a bare nilable type), "nulbare" (nullable, bound to a bare nilable type), "bad".
+func FieldSlot(g *GTy, opt, nullable bool) string {
+	switch {
+	case opt && g.K == "ptr":
+		return "optptr"
+	case opt && !nullable && g.IsBareNilable():
+		return "optbare"
+	case opt:
+		return "bad"
+	case nullable && g.IsBareNilable():
+		return "nulbare"
+	}
+	return "value"
+}
+
+// gtyOfBase reads a non-pointer Go type bound to t.
+func gtyOfBase(rt reflect.Type, t *SType) (*GTy, error) {
+	if rt.Kind() == reflect.Ptr {
+		return nil, fmt.Errorf("one pointer too many for schema kind %s: %s", t.K, rt)
 	}
 	switch t.K {
 	case "bool":
@@ -259,19 +312,30 @@ func GTyOf(rt reflect.Type, t *SType, nul bool) (*GTy, error) {
 				ft := rt.Field(i).Type
 				var e *GTy
 				var err error
-				if f.Opt {
-					if ft.Kind() != reflect.Ptr {
-						return nil, fmt.Errorf("optional field %s is not a pointer: %s", f.Name, ft)
-					}
+				switch {
+				case f.Opt && ft.Kind() == reflect.Ptr:
 					e, err = GTyOf(ft.Elem(), f.T, f.Nullable)
 					e = &GTy{K: "ptr", Elem: e}
-				} else {
+				case f.Opt:
+					if f.Nullable {
+						return nil, fmt.Errorf("optional nullable field %s is not a double pointer: %s", f.Name, ft)
+					}
+					e, err = gtyOfBase(ft, f.T)
+					if err == nil && !e.IsBareNilable() {
+						return nil, fmt.Errorf("optional field %s is neither a pointer nor nilable: %s", f.Name, ft)
+					}
+				case f.Nullable && ft.Kind() != reflect.Ptr:
+					e, err = gtyOfBase(ft, f.T)
+					if err == nil && !e.IsBareNilable() {
+						return nil, fmt.Errorf("nullable field %s is neither a pointer nor nilable: %s", f.Name, ft)
+					}
+				default:
 					e, err = GTyOf(ft, f.T, f.Nullable)
 				}
 				if err != nil {
 					return nil, err
 				}
-				g.Fields = append(g.Fields, GField{Name: f.Name, T: e})
+				g.Fields = append(g.Fields, GField{Name: f.Name, T: e, Slot: FieldSlot(e, f.Opt, f.Nullable)})
 			}
 			return g, nil
 		}
@@ -293,6 +357,23 @@ func GTyOf(rt reflect.Type, t *SType, nul bool) (*GTy, error) {
 		}
 	}
 	return nil, fmt.Errorf("Go type %s is not in the vocabulary for schema kind %s", rt, t.K)
+}
+
+// GTyOf reads the Go type rt bound to schema type t in a value slot (a list element, a map value, a union member behind
+// its pointer, a struct field once FieldSlot is dealt with) that is nullable iff nul, back into the model's form: a
+// nullable slot is a pointer; a slot that is not nullable is the type or ONE pointer to it.
+func GTyOf(rt reflect.Type, t *SType, nul bool) (*GTy, error) {
+	if rt.Kind() == reflect.Ptr {
+		e, err := gtyOfBase(rt.Elem(), t)
+		if err != nil {
+			return nil, err
+		}
+		return &GTy{K: "ptr", Elem: e}, nil
+	}
+	if nul {
+		return nil, fmt.Errorf("nullable slot of %s is not a pointer: %s", t.K, rt)
+	}
+	return gtyOfBase(rt, t)
 }
 
 // GoKinds lists the Go kinds occurring in the type (distribution).
@@ -365,8 +446,9 @@ func boundaryInt(r *Rand, k string) (int64, uint64) {
 // FillGo sets rv (settable, of type g.Reflect()) to a random inhabitant of schema type t.  safe: strings free of the
 // delimiters of enclosing string strategies.  bigUint: a Go `uint` / `uint64` bound to a schema Int may exceed MaxInt64.
 func FillGo(r *Rand, rv reflect.Value, g *GTy, t *SType, nul, safe, bigUint bool, st GoValStats) {
-	if nul {
-		if r.Chance(1, 4) {
+	if g.K == "ptr" {
+		// a value slot that is a pointer: the nullable form, or one extra pointer on a slot that is not nullable
+		if nul && r.Chance(1, 4) {
 			rv.Set(reflect.Zero(rv.Type()))
 			st["nullable:nil-pointer"]++
 			return
@@ -374,7 +456,11 @@ func FillGo(r *Rand, rv reflect.Value, g *GTy, t *SType, nul, safe, bigUint bool
 		p := reflect.New(rv.Type().Elem())
 		FillGo(r, p.Elem(), g.Elem, t, false, safe, bigUint, st)
 		rv.Set(p)
-		st["nullable:non-nil-pointer"]++
+		if nul {
+			st["nullable:non-nil-pointer"]++
+		} else {
+			st["plain-slot:pointer:"+t.K]++
+		}
 		return
 	}
 	switch t.K {
@@ -507,14 +593,30 @@ func FillGo(r *Rand, rv reflect.Value, g *GTy, t *SType, nul, safe, bigUint bool
 		fill := func(i int) {
 			f := t.Fields[i]
 			fv, fg := rv.Field(i), g.Fields[i].T
-			if f.Opt {
+			switch slot := FieldSlot(fg, f.Opt, f.Nullable); slot {
+			case "optptr":
 				p := reflect.New(fv.Type().Elem())
 				FillGo(r, p.Elem(), fg.Elem, f.T, f.Nullable, inner, bigUint, st)
 				fv.Set(p)
 				st["optional:non-nil-pointer"]++
-				return
+			case "optbare", "nulbare":
+				if slot == "nulbare" && r.Chance(1, 4) {
+					fv.Set(reflect.Zero(fv.Type()))
+					st["nullable:bare-nil:"+fg.K]++
+					return
+				}
+				FillGo(r, fv, fg, f.T, false, inner, bigUint, st)
+				if fv.IsNil() { // present: an empty, non-nil slice / []byte
+					fv.Set(reflect.MakeSlice(fv.Type(), 0, 0))
+				}
+				if fv.Kind() == reflect.Slice && fv.Len() == 0 {
+					st[slot+":present-empty:"+fg.K]++
+				} else {
+					st[slot+":present:"+fg.K]++
+				}
+			default:
+				FillGo(r, fv, fg, f.T, f.Nullable, inner, bigUint, st)
 			}
-			FillGo(r, fv, fg, f.T, f.Nullable, inner, bigUint, st)
 		}
 		last := -1
 		for i, f := range t.Fields {
@@ -529,8 +631,10 @@ func FillGo(r *Rand, rv reflect.Value, g *GTy, t *SType, nul, safe, bigUint bool
 			if f.Opt && rv.Field(i).IsNil() {
 				if t.SRepr == "tuple" && i < last {
 					fill(i) // a tuple has no representation for an absent field before a present one (C08's known finding)
-				} else {
+				} else if g.Fields[i].T.K == "ptr" {
 					st["optional:nil-pointer"]++
+				} else {
+					st["optional:bare-nil:"+g.Fields[i].T.K]++
 				}
 			}
 		}
@@ -549,14 +653,20 @@ func FillGo(r *Rand, rv reflect.Value, g *GTy, t *SType, nul, safe, bigUint bool
 // the oracle: what a Go value holds as the schema describes it, read by reflection
 
 func WalkGo(rv reflect.Value, g *GTy, t *SType, nul bool) (Val, error) {
-	if nul {
+	if g.K == "ptr" {
 		if rv.Kind() != reflect.Ptr {
-			return Val{}, fmt.Errorf("nullable slot holds a %s", rv.Kind())
+			return Val{}, fmt.Errorf("pointer slot holds a %s", rv.Kind())
 		}
 		if rv.IsNil() {
-			return Null(), nil
+			if nul {
+				return Null(), nil
+			}
+			return Val{}, fmt.Errorf("nil pointer in a slot that is not nullable")
 		}
 		return WalkGo(rv.Elem(), g.Elem, t, false)
+	}
+	if nul {
+		return Val{}, fmt.Errorf("nullable slot holds a %s", rv.Kind())
 	}
 	switch t.K {
 	case "bool":
@@ -626,14 +736,29 @@ func WalkGo(rv reflect.Value, g *GTy, t *SType, nul bool) (Val, error) {
 		out := Val{K: '{'}
 		for i, f := range t.Fields {
 			fv, fg := rv.Field(i), g.Fields[i].T
-			if f.Opt {
+			nullable := f.Nullable
+			switch FieldSlot(fg, f.Opt, f.Nullable) {
+			case "optptr":
 				if fv.IsNil() {
 					out.M = append(out.M, KV{[]byte(f.Name), Val{K: 'a'}})
 					continue
 				}
 				fv, fg = fv.Elem(), fg.Elem
+			case "optbare":
+				if fv.IsNil() {
+					out.M = append(out.M, KV{[]byte(f.Name), Val{K: 'a'}})
+					continue
+				}
+			case "nulbare":
+				if fv.IsNil() {
+					out.M = append(out.M, KV{[]byte(f.Name), Null()})
+					continue
+				}
+				nullable = false
+			case "bad":
+				return Val{}, fmt.Errorf("optional field %s is neither a pointer nor nilable", f.Name)
 			}
-			x, err := WalkGo(fv, fg, f.T, f.Nullable)
+			x, err := WalkGo(fv, fg, f.T, nullable)
 			if err != nil {
 				return Val{}, err
 			}
@@ -687,12 +812,12 @@ func writeGoVal(sb *strings.Builder, rv reflect.Value, g *GTy, sortKeys bool) {
 		case cidlink.Link:
 			sb.WriteString("l" + hex.EncodeToString(x.Cid.Bytes()) + " ")
 		default:
-			sb.WriteString("l?nil ")
+			sb.WriteString("nili ")
 		}
 	case "node":
 		n, _ := rv.Interface().(datamodel.Node)
 		if n == nil {
-			sb.WriteString("N ?nil ")
+			sb.WriteString("nili ")
 			break
 		}
 		v, err := ReadNode(n)
@@ -724,6 +849,10 @@ func writeGoVal(sb *strings.Builder, rv reflect.Value, g *GTy, sortKeys bool) {
 	case "struct":
 		sb.WriteString("( ")
 		for i := range g.Fields {
+			if f := g.Fields[i]; (f.Slot == "optbare" || f.Slot == "nulbare") && f.T.K == "bytes" && rv.Field(i).IsNil() {
+				sb.WriteString("nils ") // a nil []byte that means absent / null (elsewhere nil and empty []byte are the same data)
+				continue
+			}
 			writeGoVal(sb, rv.Field(i), g.Fields[i].T, sortKeys)
 		}
 		sb.WriteString(") ")
@@ -811,6 +940,10 @@ func ParseGoVal(toks []string, rv reflect.Value, g *GTy) ([]string, error) {
 		rv.SetFloat(math.Float64frombits(u))
 		return rest, nil
 	case "string", "bytes", "link:iface", "link:cid", "link:cidlink":
+		if (t == "nils" && g.K == "bytes") || (t == "nili" && g.K == "link:iface") {
+			rv.Set(reflect.Zero(rv.Type()))
+			return rest, nil
+		}
 		want := map[string]byte{"string": 's', "bytes": 'b'}[g.K]
 		if want == 0 {
 			want = 'l'
@@ -840,6 +973,10 @@ func ParseGoVal(toks []string, rv reflect.Value, g *GTy) ([]string, error) {
 		}
 		return rest, nil
 	case "node":
+		if t == "nili" {
+			rv.Set(reflect.Zero(rv.Type()))
+			return rest, nil
+		}
 		if t != "N" {
 			return bad()
 		}
@@ -1017,6 +1154,9 @@ func NormGo(rv reflect.Value, g *GTy) reflect.Value {
 		out.Set(p)
 	case "struct":
 		for i := range g.Fields {
+			if f := g.Fields[i]; (f.Slot == "optbare" || f.Slot == "nulbare") && rv.Field(i).IsNil() {
+				continue // nil in a bare nilable optional / nullable field is absent / null: it stays nil
+			}
 			out.Field(i).Set(NormGo(rv.Field(i), g.Fields[i].T))
 		}
 	case "omap":
@@ -1071,9 +1211,13 @@ func BreakGo(r *Rand, rv reflect.Value, g *GTy, t *SType, nul bool) string {
 	var sites []site
 	var walk func(rv reflect.Value, g *GTy, t *SType, nul bool)
 	walk = func(rv reflect.Value, g *GTy, t *SType, nul bool) {
-		if nul {
+		if g.K == "ptr" {
 			if rv.IsNil() {
 				return
+			}
+			if !nul {
+				p := rv
+				sites = append(sites, site{"nil-pointer-in-plain-slot", func() { p.Set(reflect.Zero(p.Type())) }})
 			}
 			walk(rv.Elem(), g.Elem, t, false)
 			return
@@ -1100,13 +1244,20 @@ func BreakGo(r *Rand, rv reflect.Value, g *GTy, t *SType, nul bool) string {
 		case "struct":
 			for i, f := range t.Fields {
 				fv, fg := rv.Field(i), g.Fields[i].T
-				if f.Opt {
+				nullable := f.Nullable
+				switch FieldSlot(fg, f.Opt, f.Nullable) {
+				case "optptr":
 					if fv.IsNil() {
 						continue
 					}
 					fv, fg = fv.Elem(), fg.Elem
+				case "optbare", "nulbare":
+					if fv.IsNil() {
+						continue
+					}
+					nullable = false
 				}
-				walk(fv, fg, f.T, f.Nullable)
+				walk(fv, fg, f.T, nullable)
 			}
 		case "union":
 			sites = append(sites, site{"union-without-member", func() { rv.Set(reflect.Zero(rv.Type())) }})
